@@ -1,5 +1,533 @@
-From Coq Require Import List Arith Lia PeanoNat ZArith Bool.
+(* Lemmas about Model/Tensors.v, part 1: rank-one chains, const (incl. the zeroing loop), delta. *)
+From Coq Require Import List Arith Lia PeanoNat ZArith Bool Ring.
 From TV Require Import Num.Ops Lin.Tab Lin.BigSum TT.Chain Model.Tensors.
 Import ListNotations.
-Lemma stub_example : vector_index_prepare 3 (-3) = Ok 5%Z.
-Proof. reflexivity. Qed.
+
+(* ---------- carrier independent list / index lemmas ---------- *)
+Lemma lget_nth {A} (l : list A) k d : k < length l -> lget l k = Ok (nth k l d).
+Proof. intros H. unfold lget. rewrite (nth_error_nth' l d H). reflexivity. Qed.
+Lemma lget_err {A} (l : list A) k : length l <= k -> lget l k = Err IndexError.
+Proof. intros H. unfold lget. apply nth_error_None in H. now rewrite H. Qed.
+Lemma upd_length {A} (l : list A) k x : length (upd l k x) = length l.
+Proof. revert k; induction l; intros [|k]; simpl; auto. Qed.
+Lemma nth_upd {A} (l : list A) k x d j : k < length l ->
+  nth j (upd l k x) d = if j =? k then x else nth j l d.
+Proof.
+  revert k j; induction l as [|y l IH]; intros [|k] [|j]; simpl; intros H; try lia; auto.
+  apply IH. lia.
+Qed.
+Lemma map_last_length {A} (f : A -> A) l : length (map_last f l) = length l.
+Proof. induction l as [|x [|y l] IH]; simpl in *; auto. Qed.
+Lemma nth_map_last {A} (f : A -> A) l d k : k < length l ->
+  nth k (map_last f l) d = if k =? length l - 1 then f (nth k l d) else nth k l d.
+Proof.
+  revert k; induction l as [|x [|y l] IH]; intros k H; [simpl in H; lia| |].
+  - simpl in *. destruct k; [reflexivity|lia].
+  - change (map_last f (x :: y :: l)) with (x :: map_last f (y :: l)).
+    destruct k as [|k]; [reflexivity|].
+    cbn [nth]. rewrite IH by (simpl in *; lia). cbn [length].
+    replace (S (S (length l)) - 1) with (S (S (length l) - 1)) by lia. reflexivity.
+Qed.
+
+Lemma nth_map' {A B} (f : A -> B) l d d' k : k < length l -> nth k (map f l) d' = f (nth k l d).
+Proof. intros. rewrite (nth_indep _ d' (f d)) by (now rewrite map_length). apply map_nth. Qed.
+
+Lemma np_index_ok n z : (- Z.of_nat n <= z < Z.of_nat n)%Z -> np_index n z = Ok (Z.to_nat (z mod Z.of_nat n)).
+Proof.
+  intros H. unfold np_index. destruct (Z.leb_spec 0 z) as [H0|H0].
+  - destruct (Z.ltb_spec z (Z.of_nat n)); [|lia]. cbn [andb]. now rewrite Z.mod_small by lia.
+  - cbn [andb]. destruct (Z.leb_spec (- Z.of_nat n) z); [|lia]. destruct (Z.ltb_spec z 0); [|lia]. cbn [andb].
+    do 2 f_equal. apply (Z.mod_unique z (Z.of_nat n) (-1)); lia.
+Qed.
+Lemma np_index_nonneg n z : (0 <= z < Z.of_nat n)%Z -> np_index n z = Ok (Z.to_nat z).
+Proof. intros H. rewrite np_index_ok by lia. now rewrite Z.mod_small by lia. Qed.
+Lemma np_index_err n z : (z < - Z.of_nat n \/ Z.of_nat n <= z)%Z -> np_index n z = Err IndexError.
+Proof.
+  intros H. unfold np_index.
+  destruct (Z.leb_spec 0 z), (Z.ltb_spec z (Z.of_nat n)), (Z.leb_spec (- Z.of_nat n) z), (Z.ltb_spec z 0);
+    cbn [andb]; try reflexivity; lia.
+Qed.
+
+(* a decidable property holds below d everywhere, or fails somewhere *)
+Lemma all_or_ex (P Q : nat -> Prop) d : (forall k, k < d -> P k \/ Q k) ->
+  (forall k, k < d -> P k) \/ (exists k, k < d /\ Q k).
+Proof.
+  induction d; intros H; [left; intros; lia|].
+  destruct IHd as [A|(k & Hk & A)]; [intros; apply H; lia| |right; exists k; split; [lia|auto]].
+  destruct (H d) as [B|B]; [lia| |right; exists d; split; [lia|auto]].
+  left. intros k Hk. destruct (Nat.eq_dec k d); [subst; auto|apply A; lia].
+Qed.
+
+Section TensorsP.
+Context {T : Type} (K : ops T).
+Notation "0" := (o0 K). Notation "1" := (o1 K).
+Infix "+" := (oadd K). Infix "*" := (omul K). Infix "-" := (osub K).
+Notation tt := (list (core T)).
+
+(* accessors of the core builders *)
+Lemma cget_cset G a0 i0 b0 x a i b : a < cr1 G -> i < cn G -> b < cr2 G ->
+  cget K (cset K G a0 i0 b0 x) a i b = if (a =? a0) && (i =? i0) && (b =? b0) then x else cget K G a i b.
+Proof. intros. unfold cset. now rewrite cget_mk. Qed.
+Lemma cget_cmap f G a i b : a < cr1 G -> i < cn G -> b < cr2 G -> cget K (cmap K f G) a i b = f (cget K G a i b).
+Proof. intros. unfold cmap. now rewrite cget_mk. Qed.
+Lemma cget_cfull r1 n r2 x a i b : a < r1 -> i < n -> b < r2 -> cget K (cfull r1 n r2 x) a i b = x.
+Proof. intros. unfold cfull. now rewrite cget_mk. Qed.
+
+(* products *)
+Fixpoint bprod (n : nat) (f : nat -> T) : T := match n with O => 1 | S k => bprod k f * f k end.
+
+Hypothesis Rth : rng K.
+Add Ring RrTensorsP : Rth.
+
+Lemma bprod_ext n f g : (forall k, k < n -> f k = g k) -> bprod n f = bprod n g.
+Proof. induction n; simpl; intros H; auto. rewrite IHn, H; auto. Qed.
+Lemma bprod_S_l n f : bprod (S n) f = f O * bprod n (fun k => f (S k)).
+Proof. induction n; [simpl; ring|]. change (bprod (S (S n)) f) with (bprod (S n) f * f (S n)). rewrite IHn. simpl. ring. Qed.
+Lemma bprod_zero n f k : k < n -> f k = 0 -> bprod n f = 0.
+Proof.
+  induction n; intros Hk H; [lia|]. simpl. destruct (Nat.eq_dec k n) as [->|Hne].
+  - rewrite H. ring.
+  - rewrite IHn by (auto; lia). ring.
+Qed.
+Lemma bprod_const n c : bprod n (fun _ => c) = tpow K c n.
+Proof. induction n; simpl; [reflexivity|]. rewrite IHn. ring. Qed.
+Lemma bprod_one n f : (forall k, k < n -> f k = 1) -> bprod n f = 1.
+Proof. induction n; simpl; intros H; [reflexivity|]. rewrite IHn, H by auto. ring. Qed.
+Lemma tpow_1 n : tpow K 1 n = 1.
+Proof. induction n; simpl; [reflexivity|]. rewrite IHn. ring. Qed.
+(* the last factor scaled *)
+Lemma bprod_scale_last n f s : (1 <= n)%nat ->
+  bprod n (fun k => if k =? (n - 1)%nat then f k * s else f k) = bprod n f * s.
+Proof.
+  destruct n; [lia|]. intros _. simpl. replace (n - 0)%nat with n by lia. rewrite Nat.eqb_refl.
+  rewrite (bprod_ext n _ f). - ring.
+  - intros k Hk. destruct (Nat.eqb_spec k n); [lia|reflexivity].
+Qed.
+
+(* ---------- chains of (1, n, 1) cores ---------- *)
+Definition dm : core T := mk_core O O O [].
+Definition r1core (G : core T) : Prop := cr1 G = 1%nat /\ cr2 G = 1%nat.
+(* the k-th core's entry at mode index j *)
+Definition ent (Y : tt) (k j : nat) : T := cget K (nth k Y dm) O j O.
+
+Lemma vstep_r1 x G i : r1core G -> vstep K [x] G i = [x * cget K G O i O].
+Proof. intros [A B]. unfold vstep. rewrite A, B. cbn [tab map seq bsum nth]. f_equal. ring. Qed.
+Lemma run_r1 Y : forall x idx, Forall r1core Y -> length idx = length Y ->
+  run K [x] Y idx = [x * bprod (length Y) (fun k => ent Y k (nth k idx O))].
+Proof.
+  induction Y as [|G Y IH]; intros x [|i idx] HF HL; simpl in HL; try discriminate.
+  - simpl. f_equal. ring.
+  - inversion HF as [|? ? HG HY]; subst. cbn [run]. rewrite vstep_r1 by auto. rewrite IH by (auto; lia).
+    f_equal. cbn [length]. rewrite bprod_S_l. unfold ent. cbn [nth]. ring.
+Qed.
+Lemma get_r1 Y idx : Forall r1core Y -> length idx = length Y ->
+  get K Y idx = bprod (length Y) (fun k => ent Y k (nth k idx O)).
+Proof. intros HF HL. unfold get. rewrite run_r1 by auto. cbn [nth]. ring. Qed.
+
+(* shape invariant: the k-th core is (1, n_k, 1) *)
+Definition shp (ns : list nat) (Y : tt) : Prop :=
+  length Y = length ns /\ forall k, k < length ns -> cr1 (nth k Y dm) = 1%nat /\ cn (nth k Y dm) = nth k ns O /\ cr2 (nth k Y dm) = 1%nat.
+Lemma shp_r1 ns Y : shp ns Y -> Forall r1core Y.
+Proof.
+  intros [HL H]. apply Forall_forall. intros G HG. apply (In_nth _ _ dm) in HG as (k & Hk & <-).
+  destruct (H k) as (A & _ & B); [lia|]. split; auto.
+Qed.
+Lemma shp_shape ns Y : shp ns Y -> shape Y = ns.
+Proof.
+  intros [HL H]. unfold shape. apply (list_eq_nth O). - now rewrite map_length.
+  - rewrite map_length. intros k Hk. rewrite (nth_map' _ _ dm) by auto. apply H. lia.
+Qed.
+Lemma shp_wf ns Y idx : shp ns Y -> inb ns idx -> wf 1 Y idx.
+Proof.
+  intros HS HI. apply wf_wfo, wfo_chain_inb. rewrite (shp_shape _ _ HS). split; [|exact HI].
+  destruct HS as [HL H]. clear HI. revert ns HL H. induction Y as [|G Y IH]; intros [|n ns] HL H; simpl in HL; try discriminate.
+  - reflexivity.
+  - cbn [chain]. destruct (H O) as (A & _ & B); [simpl; lia|]. cbn [nth] in A, B. split; [exact A|]. rewrite B.
+    apply (IH ns); [lia|]. intros k Hk. apply (H (S k)). simpl. lia.
+Qed.
+Lemma inb_length ns idx : inb ns idx -> length idx = length ns.
+Proof. intros H. unfold inb in H. induction H; simpl; auto. Qed.
+Lemma inb_nth ns idx k : inb ns idx -> k < length ns -> nth k idx O < nth k ns O.
+Proof.
+  intros H. unfold inb in H. revert k. induction H; intros k Hk; simpl in Hk; [lia|].
+  destruct k; simpl; auto. apply IHForall2. lia.
+Qed.
+Lemma get_shp ns Y idx : shp ns Y -> inb ns idx ->
+  get K Y idx = bprod (length ns) (fun k => ent Y k (nth k idx O)).
+Proof.
+  intros HS HI. rewrite get_r1; [now rewrite (proj1 HS)|eapply shp_r1; eauto|].
+  rewrite (inb_length _ _ HI). symmetry. apply HS.
+Qed.
+
+(* [np.ones([1,k,1]) * rho for k in n] *)
+Lemma shp_cfull ns x : shp ns (map (fun k => cfull 1%nat k 1%nat x) ns).
+Proof.
+  split; [apply map_length|]. intros k Hk.
+  rewrite (nth_map' _ _ O) by auto. repeat split.
+Qed.
+Lemma ent_cfull ns x k j : k < length ns -> j < nth k ns O -> ent (map (fun k => cfull 1%nat k 1%nat x) ns) k j = x.
+Proof.
+  intros Hk Hj. unfold ent. rewrite (nth_map' _ _ O) by auto. apply cget_cfull; auto.
+Qed.
+(* Y[-1] *= s *)
+Lemma shp_map_last_cmap ns Y f : shp ns Y -> shp ns (map_last (cmap K f) Y).
+Proof.
+  intros [HL H]. split; [now rewrite map_last_length|]. intros k Hk.
+  rewrite nth_map_last by lia. destruct (k =? (length Y - 1)%nat); [|auto]. apply (H k Hk).
+Qed.
+Lemma ent_map_last_cmap ns Y f k j : shp ns Y -> k < length ns -> j < nth k ns O ->
+  ent (map_last (cmap K f) Y) k j = if k =? (length ns - 1)%nat then f (ent Y k j) else ent Y k j.
+Proof.
+  intros [HL H] Hk Hj. unfold ent. rewrite nth_map_last by lia. rewrite HL.
+  destruct (k =? (length ns - 1)%nat); [|reflexivity].
+  destruct (H k Hk) as (A & B & C). apply cget_cmap; lia.
+Qed.
+(* Y[k][0, j0, 0] = x *)
+Lemma shp_upd_cset ns Y k j0 x : shp ns Y -> shp ns (upd Y k (cset K (nth k Y dm) O j0 O x)).
+Proof.
+  intros [HL H]. split; [now rewrite upd_length|]. intros k' Hk'.
+  destruct (Nat.lt_ge_cases k (length Y)) as [Hk|Hk].
+  - rewrite nth_upd by auto. destruct (k' =? k) eqn:E; [|auto]. apply Nat.eqb_eq in E; subst. apply (H k Hk').
+  - replace (upd Y k (cset K (nth k Y dm) O j0 O x)) with Y; [auto|].
+    clear - Hk. revert k Hk. induction Y; intros [|k] Hk; simpl in *; try lia; auto. f_equal. apply IHY. lia.
+Qed.
+Lemma ent_upd_cset ns Y k j0 x k' j : shp ns Y -> k < length ns -> k' < length ns -> j < nth k' ns O ->
+  ent (upd Y k (cset K (nth k Y dm) O j0 O x)) k' j = if (k' =? k) && (j =? j0) then x else ent Y k' j.
+Proof.
+  intros [HL H] Hk Hk' Hj. unfold ent. rewrite nth_upd by lia.
+  destruct (Nat.eqb_spec k' k) as [->|Hne]; [|reflexivity].
+  destruct (H k Hk) as (A & B & C). rewrite cget_cset by lia. cbn [Nat.eqb andb]. now rewrite andb_true_r.
+Qed.
+
+(* one-hot chains: the k-th core is w_k at mode index p_k and zero elsewhere *)
+Lemma bprod_last_only n v : (1 <= n)%nat -> bprod n (fun k => if k =? (n - 1)%nat then v else 1) = v.
+Proof.
+  destruct n; [lia|]. intros _. simpl. replace (n - 0)%nat with n by lia. rewrite Nat.eqb_refl.
+  rewrite bprod_one; [ring|]. intros k Hk. destruct (Nat.eqb_spec k n); [lia|reflexivity].
+Qed.
+Lemma onehot_hit ns Y (p : nat -> nat) (w : nat -> T) idx : shp ns Y -> inb ns idx ->
+  (forall k j, k < length ns -> j < nth k ns O -> ent Y k j = if j =? p k then w k else 0) ->
+  (forall k, k < length ns -> nth k idx O = p k) -> get K Y idx = bprod (length ns) w.
+Proof.
+  intros HS HI HE Hp. rewrite (get_shp ns) by auto. apply bprod_ext. intros k Hk.
+  rewrite HE by (auto; apply inb_nth; auto). now rewrite Hp, Nat.eqb_refl.
+Qed.
+Lemma onehot_miss ns Y (p : nat -> nat) (w : nat -> T) idx k : shp ns Y -> inb ns idx ->
+  (forall k j, k < length ns -> j < nth k ns O -> ent Y k j = if j =? p k then w k else 0) ->
+  k < length ns -> nth k idx O <> p k -> get K Y idx = 0.
+Proof.
+  intros HS HI HE Hk Hp. rewrite (get_shp ns) by auto. apply (bprod_zero _ _ k Hk).
+  rewrite HE by (auto; apply inb_nth; auto). destruct (Nat.eqb_spec (nth k idx O) (p k)); [contradiction|reflexivity].
+Qed.
+
+(* ---------- const without zero list ---------- *)
+Lemma shp_const_plain tiny root ns v : shp ns (const_plain K tiny root ns v).
+Proof. unfold const_plain. apply shp_map_last_cmap, shp_cfull. Qed.
+Lemma const_plain_get tiny root ns v idx : ns <> [] -> inb ns idx ->
+  get K (const_plain K tiny root ns v) idx = tpow K (root_of K tiny root v) (length ns) * sign_of K tiny v.
+Proof.
+  intros Hne HI. rewrite (get_shp ns) by (auto using shp_const_plain).
+  unfold const_plain.
+  rewrite (bprod_ext _ _ (fun k => if k =? (length ns - 1)%nat then root_of K tiny root v * sign_of K tiny v
+                                    else root_of K tiny root v)).
+  - rewrite (bprod_scale_last (length ns) (fun _ => root_of K tiny root v)).
+    + now rewrite bprod_const.
+    + destruct ns; [congruence|simpl; lia].
+  - intros k Hk. pose proof (inb_nth _ _ k HI Hk) as Hj.
+    rewrite (ent_map_last_cmap ns) by (auto using shp_cfull). rewrite ent_cfull by auto. reflexivity.
+Qed.
+(* the two laws the carrier / the root oracle have to satisfy on the branch |v| > 1e-16 *)
+Definition root_law (tiny : T) (root : T -> T) (d : nat) (v : T) : Prop :=
+  big K tiny v = true -> tpow K (root (oabs K v)) d = oabs K v.
+Definition sign_law (tiny v : T) : Prop :=
+  big K tiny v = true -> oabs K v * odiv K (oabs K v) v = v.
+Lemma const_value tiny root d v : root_law tiny root d v -> sign_law tiny v ->
+  tpow K (root_of K tiny root v) d * sign_of K tiny v = v.
+Proof.
+  unfold root_law, sign_law, root_of, sign_of. intros HR HS. destruct (big K tiny v).
+  - rewrite HR by auto. now apply HS.
+  - rewrite tpow_1. ring.
+Qed.
+Lemma const_denote tiny root ns v idx : ns <> [] -> inb ns idx ->
+  root_law tiny root (length ns) v -> sign_law tiny v ->
+  get K (const_plain K tiny root ns v) idx = v.
+Proof. intros. rewrite const_plain_get by auto. now apply const_value. Qed.
+
+(* ---------- the zeroing loop ---------- *)
+(* indices as the code receives them (Python ints), in range and non-negative *)
+Definition zin (ns : list nat) (iz : list Z) : Prop := Forall2 (fun z n => (0 <= z < Z.of_nat n)%Z) iz ns.
+Lemma zin_length ns iz : zin ns iz -> length iz = length ns.
+Proof. intros H. induction H; simpl; auto. Qed.
+Lemma zin_nth ns iz k : zin ns iz -> k < length ns -> (0 <= nth k iz 0%Z < Z.of_nat (nth k ns O))%Z.
+Proof.
+  intros H. revert k. induction H; intros k Hk; simpl in Hk; [lia|]. destruct k; simpl; auto. apply IHForall2. lia.
+Qed.
+Lemma zin_inb ns iz : zin ns iz -> inb ns (map Z.to_nat iz).
+Proof. intros H. unfold inb. induction H; simpl; constructor; auto. lia. Qed.
+Lemma nth_map_to_nat iz k : nth k (map Z.to_nat iz) O = Z.to_nat (nth k iz 0%Z).
+Proof. change O with (Z.to_nat 0%Z). apply map_nth. Qed.
+
+Lemma set_zero_ok ns Y k z : shp ns Y -> k < length ns -> (0 <= z < Z.of_nat (nth k ns O))%Z ->
+  set_zero K Y k z = Ok (upd Y k (cset K (nth k Y dm) O (Z.to_nat z) O 0)).
+Proof.
+  intros [HL H] Hk Hz. unfold set_zero. rewrite (lget_nth Y k dm) by lia. cbn [rbind].
+  destruct (H k Hk) as (_ & B & _). rewrite B, np_index_nonneg by auto. reflexivity.
+Qed.
+
+Section Loop.
+Variable ns : list nat.
+Variable inz : option (list Z).
+Hypothesis Hinz : forall nz, inz = Some nz -> zin ns nz.
+Local Notation d := (length ns).
+(* i_zero[m] == i_non_zero[m] *)
+Definition matched (iz : list Z) (m : nat) : Prop :=
+  match inz with None => False | Some nz => nth m iz 0%Z = nth m nz 0%Z end.
+Lemma matched_dec iz m : ~ matched iz m \/ matched iz m.
+Proof. unfold matched. destruct inz; [|tauto]. destruct (Z.eq_dec (nth m iz 0%Z) (nth m l 0%Z)); tauto. Qed.
+
+(* one step of the while loop evaluates the condition *)
+Lemma cond_eval iz k : zin ns iz -> k < d ->
+  exists c, (match inz with
+             | None => Ok true
+             | Some nz => rbind (lget iz k) (fun a => rbind (lget nz k) (fun b => Ok (negb (a =? b)%Z)))
+             end) = Ok c /\ (c = true <-> ~ matched iz k).
+Proof.
+  intros Hz Hk. unfold matched. destruct inz as [nz|] eqn:E.
+  - pose proof (zin_length _ _ Hz). pose proof (zin_length _ _ (Hinz nz eq_refl)).
+    rewrite (lget_nth iz k 0%Z), (lget_nth nz k 0%Z) by lia. cbn [rbind].
+    eexists; split; [reflexivity|]. destruct (Z.eqb_spec (nth k iz 0%Z) (nth k nz 0%Z)); simpl; split; intros; try tauto; discriminate.
+  - exists true. split; [reflexivity|tauto].
+Qed.
+
+(* the loop finds the first unmatched mode at cyclic distance j from the cursor *)
+Lemma zero_one_found iz : zin ns iz -> forall j fuel k skiped Y, shp ns Y -> k < d ->
+  ~ matched iz ((k + j) mod d)%nat -> (skiped + j <= d)%nat -> j < fuel ->
+  exists k', k' < d /\ ~ matched iz k' /\
+    zero_one K fuel d inz iz Y k skiped =
+      Ok (upd Y k' (cset K (nth k' Y dm) O (Z.to_nat (nth k' iz 0%Z)) O 0), S k').
+Proof.
+  intros Hz. induction j as [|j IH]; intros fuel k skiped Y HS Hk Hm Hsk Hf;
+    (destruct fuel as [|fuel]; [lia|]); cbn [zero_one];
+    destruct (cond_eval iz k Hz Hk) as (c & -> & Hc); cbn [rbind].
+  - rewrite Nat.add_0_r, Nat.mod_small in Hm by auto. destruct c; [|exfalso; apply Hm; destruct (matched_dec iz k) as [N|M]; [apply Hc in N; discriminate|exact M]].
+    exists k. repeat split; auto. pose proof (zin_length _ _ Hz).
+    rewrite (lget_nth iz k 0%Z) by lia. cbn [rbind].
+    rewrite (set_zero_ok ns) by (auto; apply zin_nth; auto). reflexivity.
+  - destruct c.
+    + exists k. repeat split; [auto|apply Hc; auto|]. pose proof (zin_length _ _ Hz).
+      rewrite (lget_nth iz k 0%Z) by lia. cbn [rbind].
+      rewrite (set_zero_ok ns) by (auto; apply zin_nth; auto). reflexivity.
+    + destruct (Nat.ltb_spec d (S skiped)); [lia|].
+      apply IH; auto; try lia.
+      * destruct (Nat.leb_spec d (S k)); lia.
+      * destruct (Nat.leb_spec d (S k)).
+        -- assert (S k = d) by lia. replace ((k + S j) mod d)%nat with ((j + 1 * d) mod d)%nat in Hm by (f_equal; lia).
+           rewrite Nat.mod_add in Hm by lia. exact Hm.
+        -- replace (S k + j)%nat with (k + S j)%nat by lia. exact Hm.
+Qed.
+(* ... and raises ValueError when every mode is matched *)
+Lemma zero_one_conflict iz : zin ns iz -> (forall m, m < d -> matched iz m) ->
+  forall fuel k skiped Y, k < d -> skiped <= d -> (d - skiped < fuel)%nat ->
+  zero_one K fuel d inz iz Y k skiped = Err ValueError.
+Proof.
+  intros Hz Hall. induction fuel as [|fuel IH]; intros k skiped Y Hk Hsk Hf; [lia|].
+  cbn [zero_one]. destruct (cond_eval iz k Hz Hk) as (c & -> & Hc). cbn [rbind].
+  destruct c; [exfalso; apply Hc; auto|].
+  destruct (Nat.ltb_spec d (S skiped)); [reflexivity|].
+  apply IH; try lia. destruct (Nat.leb_spec d (S k)); lia.
+Qed.
+
+(* what one pass of the outer loop does *)
+Lemma zero_one_spec iz Y k : zin ns iz -> shp ns Y -> k < d ->
+  (exists k', k' < d /\ ~ matched iz k' /\
+     zero_one K (S (S d)) d inz iz Y k O =
+       Ok (upd Y k' (cset K (nth k' Y dm) O (Z.to_nat (nth k' iz 0%Z)) O 0), S k'))
+  \/ (zero_one K (S (S d)) d inz iz Y k O = Err ValueError /\ inz = Some iz).
+Proof.
+  intros Hz HS Hk.
+  destruct (all_or_ex (matched iz) (fun m => ~ matched iz m) d) as [Hall|(m & Hm & Hnm)].
+  - intros m _. destruct (matched_dec iz m); tauto.
+  - right. split; [apply zero_one_conflict; auto; lia|].
+    unfold matched in Hall. destruct inz as [nz|] eqn:E; [|exfalso; apply (Hall O); lia].
+    f_equal. symmetry. pose proof (zin_length _ _ Hz). pose proof (zin_length _ _ (Hinz nz eq_refl)).
+    apply (list_eq_nth 0%Z); [congruence|]. intros t Ht. apply Hall. lia.
+  - left. apply (zero_one_found iz Hz ((m + d - k) mod d)%nat); auto; try lia.
+    + rewrite Nat.add_mod_idemp_r by lia. replace (k + (m + d - k))%nat with (m + 1 * d)%nat by lia.
+      rewrite Nat.mod_add, Nat.mod_small by lia. exact Hnm.
+    + pose proof (Nat.mod_upper_bound (m + d - k)%nat d). lia.
+    + pose proof (Nat.mod_upper_bound (m + d - k)%nat d). lia.
+Qed.
+
+(* loop invariant, relative to the initial tensor Y0 *)
+Variable Y0 : tt.
+Definition inv (Y : tt) : Prop :=
+  shp ns Y /\
+  (forall k j, k < d -> j < nth k ns O -> ent Y k j = ent Y0 k j \/ ent Y k j = 0) /\
+  (forall nz, inz = Some nz -> forall k, k < d -> ent Y k (Z.to_nat (nth k nz 0%Z)) = ent Y0 k (Z.to_nat (nth k nz 0%Z))).
+Definition mono (Y Y' : tt) : Prop := forall k j, k < d -> j < nth k ns O -> ent Y k j = 0 -> ent Y' k j = 0.
+Definition zero_at (Y : tt) (iz : list Z) : Prop := exists k, k < d /\ ent Y k (Z.to_nat (nth k iz 0%Z)) = 0.
+
+Lemma inv_step Y iz k' : inv Y -> zin ns iz -> k' < d -> ~ matched iz k' ->
+  let Y' := upd Y k' (cset K (nth k' Y dm) O (Z.to_nat (nth k' iz 0%Z)) O 0) in
+  inv Y' /\ mono Y Y' /\ zero_at Y' iz.
+Proof.
+  intros (HS & HV & HP) Hz Hk' Hnm Y'.
+  assert (E : forall k j, k < d -> j < nth k ns O ->
+            ent Y' k j = if (k =? k') && (j =? Z.to_nat (nth k' iz 0%Z)) then 0 else ent Y k j).
+  { intros k j Hk Hj. unfold Y'. apply (ent_upd_cset ns); auto. }
+  split; [split; [apply shp_upd_cset; auto|split]|split].
+  - intros k j Hk Hj. rewrite E by auto. destruct (_ && _); [now right|auto].
+  - intros nz Hnz k Hk. pose proof (zin_nth _ _ k (Hinz nz Hnz) Hk) as Hr. rewrite E by (auto; lia).
+    destruct (Nat.eqb_spec k k') as [->|Hne]; [|apply HP; auto]. cbn [andb].
+    destruct (Nat.eqb_spec (Z.to_nat (nth k' nz 0%Z)) (Z.to_nat (nth k' iz 0%Z))) as [Heq|Hneq]; [|apply HP; auto].
+    exfalso. apply Hnm. unfold matched. rewrite Hnz. pose proof (zin_nth _ _ k' Hz Hk'). lia.
+  - intros k j Hk Hj H0. rewrite E by auto. destruct (_ && _); auto.
+  - exists k'. split; [auto|]. pose proof (zin_nth _ _ k' Hz Hk'). rewrite E by (auto; lia).
+    now rewrite !Nat.eqb_refl.
+Qed.
+
+Lemma zero_all_spec Iz : Forall (zin ns) Iz -> forall Y k, inv Y -> k < d ->
+  match zero_all K d inz Iz Y k with
+  | Ok (Y', _) => inv Y' /\ mono Y Y' /\ Forall (zero_at Y') Iz /\ Forall (fun iz => inz <> Some iz) Iz
+  | Err e => e = ValueError /\ Exists (fun iz => inz = Some iz) Iz
+  end.
+Proof.
+  induction 1 as [|iz Iz Hz HIz IH]; intros Y k HI Hk; cbn [zero_all].
+  - split; [exact HI|split; [intros ? ? ? ? ?; auto|split; constructor]].
+  - destruct (zero_one_spec iz Y k Hz (proj1 HI) Hk) as [(k' & Hk' & Hnm & ->)|(-> & Hc)]; cbn [rbind fst snd].
+    + destruct (inv_step Y iz k' HI Hz Hk' Hnm) as (HI' & HM & HZ).
+      set (Y1 := upd Y k' _) in *.
+      specialize (IH Y1 (if d <=? S k' then O else S k') HI').
+      destruct (zero_all K d inz Iz Y1 _) as [[Y' kk]|e].
+      * destruct IH as (A & B & C & D). { destruct (Nat.leb_spec d (S k')); lia. }
+        repeat split; try apply A; auto.
+        -- intros a b Ha Hb H0. apply B; auto.
+        -- constructor; auto. destruct HZ as (m & Hm & H0). exists m. split; [auto|].
+           apply B; auto. pose proof (zin_nth _ _ m Hz Hm). lia.
+        -- constructor; auto. intros Heq. apply Hnm. unfold matched. now rewrite Heq.
+      * destruct IH as (A & B). { destruct (Nat.leb_spec d (S k')); lia. } split; auto.
+    + split; [reflexivity|]. now constructor.
+Qed.
+End Loop.
+
+(* ---------- const with a zero list ---------- *)
+Lemma const_zeros tiny root ns v Iz inz : ns <> [] ->
+  Forall (zin ns) Iz -> (forall nz, inz = Some nz -> zin ns nz) ->
+  root_law tiny root (length ns) v -> sign_law tiny v ->
+  match const K tiny root ns v (Some Iz) inz with
+  | Ok Y =>
+      shp ns Y /\
+      Forall (fun iz => inz <> Some iz) Iz /\
+      (forall idx, inb ns idx -> get K Y idx = v \/ get K Y idx = 0) /\
+      (forall iz, In iz Iz -> get K Y (map Z.to_nat iz) = 0) /\
+      (forall nz, inz = Some nz -> get K Y (map Z.to_nat nz) = v)
+  | Err e => e = ValueError /\ Exists (fun iz => inz = Some iz) Iz
+  end.
+Proof.
+  intros Hne HIz Hinz HR HS. unfold const. destruct ns as [|n0 ns']; [congruence|]. set (ns := n0 :: ns') in *.
+  set (Y0 := const_plain K tiny root ns v).
+  assert (HI0 : inv ns inz Y0 Y0).
+  { split; [apply shp_const_plain|split; [intros; now left|intros; reflexivity]]. }
+  pose proof (zero_all_spec ns inz Hinz Y0 Iz HIz Y0 O HI0) as H.
+  destruct (zero_all K (length ns) inz Iz Y0 O) as [[Y kk]|e]; cbn [rmap fst].
+  2:{ apply H. simpl; lia. }
+  destruct H as ((HSh & HV & HP) & _ & HZ & HC). { simpl; lia. }
+  assert (G0 : forall idx, inb ns idx -> bprod (length ns) (fun k => ent Y0 k (nth k idx O)) = v).
+  { intros idx Hi. rewrite <- (get_shp ns) by (auto; apply shp_const_plain). apply const_denote; auto. }
+  split; [exact HSh|split; [exact HC|split; [|split]]].
+  - intros idx Hi. rewrite (get_shp ns) by auto.
+    destruct (all_or_ex (fun k => ent Y k (nth k idx O) = ent Y0 k (nth k idx O))
+                        (fun k => ent Y k (nth k idx O) = 0) (length ns)) as [A|(k & Hk & A)].
+    + intros k Hk. apply HV; auto. apply inb_nth; auto.
+    + left. rewrite (bprod_ext _ _ _ A). auto.
+    + right. eapply bprod_zero; eauto.
+  - intros iz Hiz. rewrite Forall_forall in HZ, HIz. destruct (HZ iz Hiz) as (k & Hk & H0).
+    rewrite (get_shp ns) by (auto; apply zin_inb; auto).
+    apply (bprod_zero _ _ k Hk). now rewrite nth_map_to_nat.
+  - intros nz Hnz. rewrite (get_shp ns) by (auto; apply zin_inb; auto).
+    rewrite <- (G0 (map Z.to_nat nz)) by (apply zin_inb; auto).
+    apply bprod_ext. intros k Hk. rewrite nth_map_to_nat. apply HP; auto.
+Qed.
+(* without a protected index nothing can conflict *)
+Lemma const_zeros_noprot_ok tiny root ns v Iz : ns <> [] -> Forall (zin ns) Iz ->
+  exists Y, const K tiny root ns v (Some Iz) None = Ok Y.
+Proof.
+  intros Hne HIz. unfold const. destruct ns as [|n0 ns']; [congruence|]. set (ns := n0 :: ns') in *.
+  set (Y0 := const_plain K tiny root ns v).
+  assert (HI0 : inv ns None Y0 Y0).
+  { split; [apply shp_const_plain|split; [intros; now left|intros; reflexivity]]. }
+  assert (Hn : forall nz, @None (list Z) = Some nz -> zin ns nz) by (intros; discriminate).
+  pose proof (zero_all_spec ns None Hn Y0 Iz HIz Y0 O HI0) as H.
+  destruct (zero_all K (length ns) None Iz Y0 O) as [[Y kk]|e]; cbn [rmap fst]; [eauto|].
+  destruct H as (_ & H). { simpl; lia. } apply Exists_exists in H as (? & _ & ?). discriminate.
+Qed.
+
+(* ---------- delta ---------- *)
+(* positions as the code receives them: numpy normalises -n <= z < 0 to n + z *)
+Definition zpos (ns : list nat) (i : list Z) : Prop := Forall2 (fun z n => (- Z.of_nat n <= z < Z.of_nat n)%Z) i ns.
+Definition npos (ns : list nat) (i : list Z) : list nat :=
+  map (fun zn => Z.to_nat (fst zn mod Z.of_nat (snd zn))) (combine i ns).
+Lemma npos_inb ns i : zpos ns i -> inb ns (npos ns i).
+Proof.
+  intros H. unfold inb, npos. induction H; simpl; constructor; auto.
+  pose proof (Z.mod_pos_bound x (Z.of_nat y)). lia.
+Qed.
+Lemma delta_fill_spec rho ns : forall i, zpos ns i ->
+  exists Y, delta_fill K rho (map (fun k => cfull 1%nat k 1%nat 0) ns) i = Ok Y /\ shp ns Y /\
+    forall k j, k < length ns -> j < nth k ns O -> ent Y k j = if j =? nth k (npos ns i) O then rho else 0.
+Proof.
+  induction ns as [|n ns IH]; intros i Hi; inversion Hi as [|z ? i' ? Hz Hi']; subst.
+  - exists []. split; [reflexivity|]. split; [split; [reflexivity|]|]; simpl; intros; lia.
+  - destruct (IH i' Hi') as (Y & E & HS & HE). cbn [map delta_fill].
+    change (cn (cfull 1%nat n 1%nat 0)) with n. rewrite np_index_ok by auto. cbn [rbind]. rewrite E. cbn [rbind].
+    eexists; split; [reflexivity|]. split.
+    + destruct HS as [HL H]. split; [simpl; now rewrite HL|]. intros [|k] Hk; [repeat split|]. apply (H k). simpl in Hk; lia.
+    + intros [|k] j Hk Hj.
+      * unfold ent. cbn [nth npos combine map fst snd] in *. rewrite cget_cset by (simpl; lia).
+        cbn [Nat.eqb andb]. rewrite andb_true_r. destruct (j =? _); [reflexivity|]. apply cget_cfull; lia.
+      * cbn [nth npos combine map] in *. apply (HE k j); [simpl in Hk; lia|exact Hj].
+Qed.
+Lemma delta_denote tiny root ns i v : ns <> [] -> zpos ns i ->
+  root_law tiny root (length ns) v -> sign_law tiny v ->
+  exists Y, delta K tiny root ns i v = Ok Y /\ shp ns Y /\
+    get K Y (npos ns i) = v /\
+    forall idx, inb ns idx -> idx <> npos ns i -> get K Y idx = 0.
+Proof.
+  intros Hne Hi HR HS. unfold delta. destruct ns as [|n0 ns']; [congruence|]. set (ns := n0 :: ns') in *.
+  destruct (delta_fill_spec (root_of K tiny root v) ns i Hi) as (Y & -> & HSh & HE). cbn [rbind].
+  eexists; split; [reflexivity|]. split; [now apply shp_map_last_cmap|].
+  set (s := sign_of K tiny v). set (rho := root_of K tiny root v) in *.
+  assert (G : forall idx, inb ns idx -> get K (map_last (cmap K (fun x => x * s)) Y) idx =
+            bprod (length ns) (fun k => if nth k idx O =? nth k (npos ns i) O then rho else 0) * s).
+  { intros idx HI. rewrite (get_shp ns) by (auto; now apply shp_map_last_cmap).
+    rewrite <- (bprod_scale_last (length ns)) by (simpl; lia). apply bprod_ext. intros k Hk.
+    pose proof (inb_nth _ _ k HI Hk). rewrite (ent_map_last_cmap ns) by auto. rewrite HE by auto. reflexivity. }
+  split.
+  - rewrite G by (apply npos_inb; auto).
+    rewrite (bprod_ext _ _ (fun _ => rho)) by (intros; now rewrite Nat.eqb_refl).
+    rewrite bprod_const. now apply const_value.
+  - intros idx HI Hne'. rewrite G by auto.
+    assert (exists k, k < length ns /\ nth k idx O <> nth k (npos ns i) O) as (k & Hk & Hd).
+    { destruct (all_or_ex (fun k => nth k idx O = nth k (npos ns i) O) (fun k => nth k idx O <> nth k (npos ns i) O)
+                          (length ns)) as [A|A]; [intros; lia| |exact A].
+      exfalso. apply Hne'. apply (list_eq_nth O).
+      - rewrite (inb_length _ _ HI). symmetry. apply inb_length, npos_inb; auto.
+      - rewrite (inb_length _ _ HI). exact A. }
+    rewrite (bprod_zero _ _ k Hk); [ring|]. destruct (Nat.eqb_spec (nth k idx O) (nth k (npos ns i) O)); [contradiction|reflexivity].
+Qed.
+(* an out-of-range position raises IndexError *)
+Lemma delta_out_of_range tiny root ns i v k : ns <> [] -> length i = length ns -> k < length ns ->
+  (nth k i 0%Z < - Z.of_nat (nth k ns O) \/ Z.of_nat (nth k ns O) <= nth k i 0%Z)%Z ->
+  (forall t, t < k -> (- Z.of_nat (nth t ns O) <= nth t i 0%Z < Z.of_nat (nth t ns O))%Z) ->
+  delta K tiny root ns i v = Err IndexError.
+Proof.
+  intros Hne HL Hk Hbad Hpre. unfold delta. destruct ns as [|n0 ns']; [congruence|]. set (ns := n0 :: ns') in *.
+  assert (E : delta_fill K (root_of K tiny root v) (map (fun k => cfull 1%nat k 1%nat 0) ns) i = Err IndexError).
+  { clearbody ns. clear Hne. revert i k HL Hk Hbad Hpre. induction ns as [|n ns IH]; intros [|z i] k HL Hk Hbad Hpre; simpl in HL, Hk; try lia.
+    cbn [map delta_fill]. change (cn (cfull 1%nat n 1%nat 0)) with n. destruct k as [|k].
+    - cbn [nth] in Hbad. now rewrite np_index_err.
+    - rewrite np_index_ok by (apply (Hpre O); lia). cbn [rbind].
+      rewrite (IH i k); auto; try lia. intros t Ht. apply (Hpre (S t)). lia. }
+  now rewrite E.
+Qed.
+End TensorsP.
